@@ -731,17 +731,19 @@ def check_case(spec, ctx=None, upto=None):
     shst   = {"edited": False, "unseen": None}       # unseen: the list holds new content that no call has seen yet
 
     def fail(sig, what):
-        # the numerical break-down of Corral's root search under extreme importance weights does not hinge on the kind of actions
-        if "/logged-propensities<=1e-9" in sig and "@_log_barrier_omd" in sig or "ZeroDivisionError:zero-division@corral.py" in sig and "/logged-propensities<=1e-9" in sig: pass
+        # the numerical break-down of Corral's root search under extreme importance weights does not hinge on the kind of actions, on
+        # who owns the action list or on what the generators draw: its signature names the mechanism only
+        xp = "/logged-propensities<=1e-9" in sig and ("@_log_barrier_omd" in sig or "ZeroDivisionError:zero-division@corral.py" in sig)
+        if xp: pass
         elif akind in NEW_AKINDS: sig += "/actions:" + NEW_AKINDS[akind]
         elif equal_hashes(step.get("A") or ()): sig += "/actions:offered-set-holds-different-actions-with-equal-hashes"
-        if share and shst["edited"]:
+        if share and shst["edited"] and not xp:
             sig += "/actions-list-edited-in-place"
             # Corral hands the list to its base learners through SafeLearner, which keeps a converted COPY of the first
             # action set it sees iff that set holds 0 or 1 (a structural feature of the history, named in the signature)
             if core["k"] == "corral" and shst.get("first01"): sig += "/first-offered-set-held-0-or-1"
             what = f"{what} [the caller offers ONE list object and edited it in place ({share['edit']}, {share['point']})]"
-        if adv_at_extreme():
+        if adv_at_extreme() and not xp:
             sig += "/uniform=" + ("largest" if adv["uniform"] == "max" else "0.0")
             what = f"{what} [the {adv['draw']}-th draw of the generator of learner '{adv['target']}' is {U_MAX if adv['uniform'] == 'max' else 0.0!r}]"
         viol.append((sig, f"round {step['t']} {step['op']}: {what}"))
